@@ -64,7 +64,7 @@ def run(chk):
         b = lib.body(path)
         # the strategy body plus every private helper it calls (found through the call graph, not by name): none of them may touch the
         # interpolator except through the accessors, and none may read its fields
-        work, seen, n_acc = [b], set(), 0
+        work, seen, n_acc, kinds = [b], set(), 0, set()
         while work:
             cur = work.pop()
             if cur['def'] in seen:
@@ -73,6 +73,7 @@ def run(chk):
             for nm, x in lib.local_callees(cur):
                 if nm in allowed:
                     n_acc += 1
+                    kinds.add(nm)
                     continue
                 takes_interp = any(('Interp1D<' in a.get('ty', '') or 'Interp2D<' in a.get('ty', '')) for a in x.get('args', []))
                 hb = lib.body(nm)
@@ -85,7 +86,8 @@ def run(chk):
                 if x.get('k') == 'Field' and ('Interp1D<' in x['e']['ty'] or 'Interp2D<' in x['e']['ty']):
                     chk.ob('R20.2', "%s reads field `%s` of the interpolator directly" % (strip_generics(cur['def']), x['name']), False, line_of(x),
                            'field-%s-%s' % (path.split(' as ')[0], x['name']))
-        chk.ob('R20.2', "%s (with its private helpers) uses the bracket accessors (found %d accessor calls)" % (path.split(' as ')[0], n_acc), n_acc >= (4 if path == LIN else 7), b['span'],
+        chk.ob('R20.2', "%s (with its private helpers) reaches the interpolator through every kind of bracket accessor (found %d call sites of %s)" %
+               (path.split(' as ')[0], n_acc, sorted(kinds)), kinds == allowed, b['span'],
                'callee-floor-' + path.split(' as ')[0])
     # the bracket index is a function of the ORDER of the axis values only: comparison skeleton of the lookup (shared with C11)
     from . import c11
